@@ -210,15 +210,15 @@ int main(int argc, char **argv) {
                 auto elapsed = [&] { struct timespec t1; clock_gettime(CLOCK_MONOTONIC, &t1); return (t1.tv_sec - t0.tv_sec) + (t1.tv_nsec - t0.tv_nsec) * 1e-9; };
                 auto holds_with = [&](const std::vector<Plan> &pre) { std::vector<Plan> keep; keep.swap(g_prefix); g_prefix = pre; ++tries; Outcome o = run_forked(p); g_prefix.swap(keep); return o.violated && o.cls == a.cls; };
                 std::vector<Plan> best = g_prefix; size_t chunk = std::max<size_t>(1, best.size() / 2);
-                while (chunk >= 1 && elapsed() < 90) {
+                while (chunk >= 1 && elapsed() < 40) {
                     bool removed = false;
-                    for (size_t st = 0; st < best.size() && elapsed() < 90;) { std::vector<Plan> cand = best; size_t en = std::min(best.size(), st + chunk); cand.erase(cand.begin() + st, cand.begin() + en); if (holds_with(cand)) { best = cand; removed = true; } else st += chunk; }
+                    for (size_t st = 0; st < best.size() && elapsed() < 40;) { std::vector<Plan> cand = best; size_t en = std::min(best.size(), st + chunk); cand.erase(cand.begin() + st, cand.begin() + en); if (holds_with(cand)) { best = cand; removed = true; } else st += chunk; }
                     if (chunk == 1 && !removed) break;
                     if (!removed) chunk /= 2; else chunk = std::min(chunk, std::max<size_t>(1, best.size() / 2));
                     if (chunk == 0) break;
                 }
                 g_prefix = best;
-                for (size_t k = 0; k < g_prefix.size() && k < 8 && elapsed() < 150; k++) {
+                for (size_t k = 0; k < g_prefix.size() && k < 4 && elapsed() < 70; k++) {
                     Plan orig = g_prefix[k];
                     g_prefix[k] = shrink(orig, [&](const Plan &cand) { Plan keep = g_prefix[k]; g_prefix[k] = cand; Outcome o = run_forked(p); g_prefix[k] = keep; return o.violated && o.cls == a.cls; }, tries);
                     Outcome chk = run_forked(p); if (!chk.violated || chk.cls != a.cls) g_prefix[k] = orig;
